@@ -1,5 +1,7 @@
 import CanvasProofs.Lemmas.C17Term
 import CanvasProofs.Lemmas.C17Sums
+import CanvasProofs.Lemmas.C17Opt5
+import Mathlib.Tactic.IntervalCases
 
 /-! # C17 — `text.Linebreak` (Knuth–Plass line breaking)
 
@@ -172,23 +174,70 @@ theorem reported_width_is_line_sum (P : Params K) (items : List (Item K)) (lineW
   obtain ⟨it, r, _, _, _, _, hw⟩ := h
   rw [hw]; exact width_eq_lineNat P items prev d.pos hs
 
-/-- sufficient well-formedness for optimality: non-negative widths, glue with `0 ≤ shrink ≤ width`
-and non-negative stretch, penalties without width (a penalty with width breaks the monotonicity the
-deactivation rule relies on: known finding `nonmonotone-min-length`), positive `Infinity` -/
-def WellFormed (P : Params K) (items : List (Item K)) : Prop :=
-  0 < P.infinity ∧ 0 ≤ P.demFitness ∧ P.tolerance < P.infinity ∧
-  ∀ it, it ∈ items → 0 ≤ it.width ∧ (it.ty = Ty.glue → 0 ≤ it.shrink ∧ it.shrink ≤ it.width ∧ 0 ≤ it.stretch) ∧
-    (it.ty = Ty.penalty → it.width = 0)
+/-- Sufficient well-formedness for optimality (`Canvas.C17.WF`): positive `Infinity` and line width,
+non-negative `DemeritsFitness`; non-negative widths, glue with `0 ≤ shrink ≤ width` and non-negative
+stretch, penalties without width (known finding `nonmonotone-min-length`); a box between any two
+legal breakpoints (known finding `break-before-first-box`, see `suboptimal_witness`); an unflagged
+first item (the start node reads `items[0].Flagged`); no glue as last item. -/
+abbrev WellFormed (P : Params K) (items : List (Item K)) (lineW : K) : Prop := WF P items lineW
 
-/-- Full statement of optimality (stretch goal, not proved): for well-formed paragraphs and
-looseness 0, whenever the exhaustive specification `best` finds a breaking within `[-1, Tolerance]`,
-`linebreak` reports no overflow and returns a breaking whose total demerits are that optimum. -/
+/-- Full statement of optimality against the L3 specification (not proved): for well-formed
+paragraphs and looseness 0, whenever the exhaustive specification `best` finds a breaking within
+`[-1, Tolerance]`, `linebreak` reports no overflow and returns a breaking whose total demerits are
+that optimum. Proved so far: `optimal_over_breakings` (the result costs no more than ANY legal
+feasible breaking, lines measured by running sums) and `optimal_partial` (the result's demerits are
+the exact cost of the returned breaking). Missing for this statement: `bestFrom` = minimum of
+`seqCost` over all sequences (needs the equality of the direct-sum `lineRatio` with `adjRatio` on
+running sums for stretch/shrink as `reported_width_is_line_sum` does for the width), and
+`Fitness = fitClass Ratio` for returned nodes (so that `chainCost` is a `seqCost`). -/
 def optimal_statement : Prop :=
   ∀ (K : Type) [Field K] [LinearOrder K] [IsStrictOrderedRing K] (P : Params K) (items : List (Item K))
-    (lineW : K) (m : Nat) (dOpt : K), WellFormed P items → items.length = m + 1 →
+    (lineW : K) (m : Nat) (dOpt : K), WF P items lineW → items.length = m + 1 →
     forcedAt P items m = true → legalAt P items m = true → best P items lineW = some dOpt →
     ∃ breaks, linebreak P items lineW 0 = Outcome.ok breaks true ∧
       (breaks.getLast?).map (·.dem) = some dOpt
+
+/-- **DP completeness** (the hard half of optimality). For a well-formed paragraph and looseness 0:
+for EVERY breaking `seq` — strictly increasing legal breakpoints that skip no forced break and end at
+the final one — whose lines all have their adjustment ratio in `[-1, Tolerance]` (`seqCost`, lines
+measured as the code measures them), `linebreak` reports no overflow, needs no relaxation, and returns
+a breaking whose total demerits are at most the total demerits `d` of `seq`. Neither the
+deactivation rule nor the fitness-class pruning (`D[c] ≤ Dmin + DemeritsFitness`) nor the line
+grouping loses a better breaking. -/
+theorem optimal_over_breakings (P : Params K) (items : List (Item K)) (lineW : K) (hwf : WF P items lineW)
+    (m : Nat) (hlen : items.length = m + 1) (hfo : forcedAt P items m = true) (hle : legalAt P items m = true)
+    (seq : List Nat) (d : K) (hpw : seq.Pairwise (· < ·)) (hns : NoSkip P items none seq)
+    (hlast : seq.getLast? = some m)
+    (hcost : seqCost P items lineW (some P.tolerance) none 1 0 seq = some d) :
+    ∃ breaks dd, linebreak P items lineW 0 = Outcome.ok breaks true ∧
+      (breaks.getLast?).map (·.dem) = some dd ∧ dd ≤ d := by
+  have hrefl : ∀ a : K, (a == a) = true := fun a => beq_self_eq_true a
+  obtain ⟨lbf, hp, hov, n, hn, hnd⟩ := passLoop_opt P items lineW hwf (some P.tolerance) items 0 (initLB false)
+    none 1 0 seq d rfl (Nat.zero_le _) (inv_init P items lineW _ false) (fun x _ => Nat.zero_le _) hpw hns
+    (fun a ha => by cases ha) (fun he => by rw [he] at hlast; cases hlast)
+    (fun x hx => by rw [hlast] at hx; cases hx; omega) hcost
+    ⟨root, by simp [initLB], ⟨rfl, hwf.fl⟩, Or.inl ⟨rfl, by show (k 0 : K) ≤ 0; rw [k0]⟩⟩
+  have hp : passLoop P items lineW (some P.tolerance) 0 none items (initLB false) = PassRes.done lbf := hp
+  have hI : Inv P items lineW (some P.tolerance) items.length lbf :=
+    passLoop_inv hrefl P items lineW _ items 0 (initLB false) lbf rfl (Nat.zero_le _) (inv_init P items lineW _ false) hp
+  have hovf : lbf.ovf = false := hov
+  cases hf : finish P items.length 0 lbf with
+  | panic => simp [finish] at hf; split at hf <;> cases hf
+  | fuelOut => simp [finish] at hf; split at hf <;> cases hf
+  | ok breaks fit =>
+    obtain ⟨nb, hnb, hb, hfit, _, hanc, h0⟩ := finish_spec P items lineW _ 0 lbf m hlen hfo hle hI breaks fit hf
+    have hmin := (chooseBest_none_min lbf.act nb (h0 rfl)).2 n hn
+    refine ⟨breaks, nb.d.dem, ?_, ?_, le_trans hmin hnd⟩
+    · unfold linebreak fuelFor
+      simp only [linebreakFuel, hp, hf]
+      rw [hfit, hovf]; rfl
+    · subst hb
+      cases ha : nb.anc with
+      | nil => exact absurd ha hanc
+      | cons p rest =>
+        simp only [fixNonRoot, List.getLast?_reverse, List.head?_cons, Option.map_some]
+        congr 1
+        unfold clampRatio; split <;> rfl
 
 /-- What is proved towards optimality (looseness 0, no overflow reported): the returned breaking is
 the parent walk of a node `nb` of the final active list such that
@@ -318,6 +367,50 @@ theorem reported_width_overflow_witness : ¬ reported_widths_ratios_statement :=
       revert hw
       decide +kernel
 
+/-- Optimality without any well-formedness assumption on the items. It does **not** hold. -/
+def optimal_unrestricted_statement : Prop :=
+  ∀ (P : Params Rat) (items : List (Item Rat)) (lineW : Rat) (m : Nat) (dOpt : Rat) (breaks : List (ND Rat)) (fit : Bool),
+    items.length = m + 1 → forcedAt P items m = true → legalAt P items m = true →
+    best P items lineW = some dOpt → linebreak P items lineW 0 = Outcome.ok breaks fit →
+    ∀ d, d ∈ breaks.getLast? → d.dem ≤ dOpt
+
+/-- last reported total demerits and the optimum of the exhaustive specification -/
+def obsDem (P : Params Rat) (items : List (Item Rat)) (lineW : Rat) : Option (List Nat × Rat × Option Rat) :=
+  match linebreak P items lineW 0 with
+  | Outcome.ok brs _ => some (brs.map (·.pos), (brs.getLast?.map (·.dem)).getD 0, best P items lineW)
+  | _ => none
+
+/-- "5 1|-50 |+500 3": two penalties with only glue between them -/
+def paraTwoPenalties : List (Item Rat) :=
+  [bx 5, gl 1 5 0, bx 1, pn 0 (-50) false, gl 1 5 0, pn 0 500 false, gl 1 5 0, bx 3] ++ nl
+
+/-- Defect witness (`break-before-first-box`): the node at the first penalty is deactivated at the
+second one by a ratio computed from negative sums; the returned breaking [5, 9] costs more than the
+optimum of the exhaustive specification (the legal feasible breaking [3, 9]). -/
+theorem suboptimal_witness : ¬ optimal_unrestricted_statement := by
+  intro h
+  have hw : (match linebreak Pq paraTwoPenalties 10 0, best Pq paraTwoPenalties 10 with
+      | Outcome.ok brs _, some dOpt =>
+        (match brs.getLast? with | some d => decide (dOpt < d.dem) | none => false)
+      | _, _ => false) = true := by decide +kernel
+  cases hl : linebreak Pq paraTwoPenalties 10 0 with
+  | panic => rw [hl] at hw; cases hw
+  | fuelOut => rw [hl] at hw; cases hw
+  | ok brs fit =>
+    cases hb : best Pq paraTwoPenalties 10 with
+    | none => rw [hl, hb] at hw; cases hw
+    | some dOpt =>
+      rw [hl, hb] at hw
+      simp only at hw
+      cases hg : brs.getLast? with
+      | none => rw [hg] at hw; cases hw
+      | some d =>
+        rw [hg] at hw
+        simp only [decide_eq_true_eq] at hw
+        have := h Pq paraTwoPenalties 10 9 dOpt brs fit (by decide) (by decide +kernel) (by decide +kernel) hb hl d
+          (by rw [hg]; simp)
+        exact absurd (lt_of_lt_of_le hw this) (lt_irrefl _)
+
 /-- non-vacuity: a justified paragraph over `Rat` satisfies the hypotheses of the theorems above
 (final forced legal break, successful run without overflow, first pass completes) -/
 example : ∃ breaks lb, linebreak Pq ([bx 3, gl 1 (1/2) (1/3), bx 3, gl 1 (1/2) (1/3), bx 3] ++ nl) 8 0 = Outcome.ok breaks true ∧
@@ -344,6 +437,38 @@ example : ∃ breaks lb, linebreak Pq ([bx 3, gl 1 (1/2) (1/3), bx 3, gl 1 (1/2)
     | done lb =>
       refine ⟨brs, lb, ?_, rfl, by decide +kernel, by decide +kernel, hrun.1⟩
       rw [hrun.2.2]
+
+/-- the justified paragraph "3 3 3" of the non-vacuity examples -/
+def paraJustified : List (Item Rat) := [bx 3, gl 1 (1/2) (1/3), bx 3, gl 1 (1/2) (1/3), bx 3] ++ nl
+
+/-- non-vacuity of `optimal_over_breakings`: the paragraph is well-formed (`WF`) ... -/
+example : WF Pq paraJustified 8 := by
+  refine ⟨by decide +kernel, by decide +kernel, by decide +kernel, ?_, ?_, by decide +kernel, ?_⟩
+  · intro it hit
+    simp only [paraJustified, nl, List.cons_append, List.nil_append, List.mem_cons, List.not_mem_nil, or_false] at hit
+    rcases hit with rfl | rfl | rfl | rfl | rfl | rfl | rfl <;> decide +kernel
+  · intro a b hab ha hb
+    have h1 := legalAt_lt ha
+    have h2 := legalAt_lt hb
+    simp only [paraJustified, nl, List.cons_append, List.nil_append, List.length_cons, List.length_nil] at h1 h2
+    interval_cases b <;> interval_cases a <;> first | omega | (revert ha hb; decide +kernel)
+  · intro b it hb hg
+    have h1 : b < paraJustified.length := (List.getElem?_eq_some_iff.mp hb).1
+    simp only [paraJustified, nl, List.cons_append, List.nil_append, List.length_cons, List.length_nil] at h1 ⊢
+    interval_cases b <;> first | omega | (revert hb hg; simp [paraJustified, nl, bx, gl, pn]; done) |
+      (revert hb hg; simp [paraJustified, nl, bx, gl, pn]; intro hg he; rw [← he] at hg; cases hg)
+
+/-- ... and the breaking [3, 6] satisfies the hypotheses on `seq` (legal, feasible, no forced break skipped) -/
+example : (seqCost Pq paraJustified 8 (some Pq.tolerance) none 1 0 [3, 6]).isSome = true ∧
+    [3, 6].Pairwise (· < ·) ∧ [3, 6].getLast? = some 6 := by
+  refine ⟨by decide +kernel, by decide, rfl⟩
+
+example : NoSkip Pq paraJustified none [3, 6] := by
+  refine ⟨?_, ?_, True.intro⟩
+  · intro f _ hf; interval_cases f <;> decide +kernel
+  · intro f h1 hf
+    have := h1 3 rfl
+    interval_cases f <;> decide +kernel
 
 end witnesses
 
